@@ -112,6 +112,15 @@ def check(ctx):
         afters.append(texts[texts.index('self._hl_commander.stop()') + 1:] if 'self._hl_commander.stop()' in texts else ['?'])
     ctx.inst('R1', hl, 'hl-landing-order', all(o for o, _ in oks), 'land -> wait -> stop -> clear flag (%s)' % sorted({w for _, w in oks}))
     ctx.inst('R1', hl, 'hl-nothing-after-stop', not [t for a in afters for t in a if 'self._hl_commander.' in t], 'no high-level command after stop; found %s' % afters[:2])
+    # the tracked position is what get_position reports and what the next relative move / landing duration starts from: after a
+    # landing z is the height that was commanded (the argument of the high-level land), on every flying path
+    okz = []
+    for p_, ev_ in hp:
+        texts = [t for k, t in ev_]
+        lands = [i for i, t in enumerate(texts) if t.startswith('self._hl_commander.land(')]
+        arg0 = texts[lands[0]][len('self._hl_commander.land('):].split(',')[0].strip() if lands else None
+        okz.append(bool(lands) and any(t == 'self._z = %s' % arg0 for t in texts[lands[0] + 1:]))
+    ctx.inst('R7', hl, 'z-after-landing', all(okz), 'z becomes the commanded landing height after the descent (reported position = commanded position)')
     ctx.inst('R1', hl, 'hl-landing-duration', canon(ast.parse('(self._z - landing_height) / self._velocity(velocity)', mode='eval').body) in
              [canon(s.value) for s in walk_own(hl.node) if isinstance(s, ast.Assign) and norm(s.targets[0]) == 'duration_s'], 'landing duration = height difference / velocity')
 
